@@ -144,6 +144,8 @@ impl Stack {
             Some(slot) => {
                 *slot = vcell.into();
                 self.sp += 1;
+                #[cfg(feature = "verif")]
+                crate::vm::verif::note_sp(self.sp);
             }
             None => {
                 self.grow();
@@ -198,6 +200,8 @@ impl Stack {
             .0
             .clone_from_slice(&cont.stack);
         self.sp = cont.sp;
+        #[cfg(feature = "verif")]
+        crate::vm::verif::note_sp(self.sp);
     }
 }
 
